@@ -69,10 +69,33 @@ fn run_engine<E: Engine>(mut eng: E, mode: &str, args: &[String]) -> serde_json:
     }
 }
 
+unsafe extern "C" {
+    fn sched_getcpu() -> i32;
+    fn sched_setaffinity(pid: i32, cpusetsize: usize, mask: *const u64) -> i32;
+}
+
+/// Keep the whole process on the CPU it is on.  Datagrams sent to a loopback socket by two separate system calls
+/// are queued on the backlog of the CPU that made each call; if the sending thread migrates in between, the second
+/// can overtake the first.  The engines that read frames back from loopback sockets rely on "received order = sent
+/// order", which holds exactly when everything runs on one CPU.
+fn pin_to_current_cpu() {
+    unsafe {
+        let cpu = sched_getcpu();
+        if cpu >= 0 && cpu < 1024 {
+            let mut mask = [0u64; 16];
+            mask[cpu as usize / 64] = 1u64 << (cpu as usize % 64);
+            let _ = sched_setaffinity(0, std::mem::size_of_val(&mask), mask.as_ptr());
+        }
+    }
+}
+
 fn main() {
     // panics of the code under test are data; keep stderr quiet
     std::panic::set_hook(Box::new(|_| {}));
     let args: Vec<String> = std::env::args().collect();
+    if args.len() >= 3 && matches!(args[2].as_str(), "shellsim" | "loopsim" | "reload" | "reloadloop") {
+        pin_to_current_cpu();
+    }
     if args.len() < 3 {
         eprintln!("usage: vh replay|record <engine> ...");
         std::process::exit(2);
